@@ -48,6 +48,7 @@ func profile() lang.Profile {
 	p.Mutation = false
 	p.FreeVars = true
 	p.OptShapes = true
+	p.ObserveAll = 60
 	p.IllTyped = 2
 	p.Status = true
 	p.StrCompare = true
